@@ -1802,7 +1802,7 @@ class Mps(MatrixProduct):
 
     
     def add(self, other):
-        if not np.allclose(self.coeff, other.coeff):
+        if self.coeff != other.coeff:
             self.scale(self.coeff, inplace=True)
             other.scale(other.coeff, inplace=True)
             self.coeff = 1
@@ -1810,7 +1810,7 @@ class Mps(MatrixProduct):
         return super().add(other)
     
     def distance(self, other) -> float:
-        if not np.allclose(self.coeff, other.coeff):
+        if self.coeff != other.coeff:
             self.scale(self.coeff, inplace=True)
             other.scale(other.coeff, inplace=True)
             self.coeff = 1
